@@ -206,9 +206,10 @@ def main(argv=None):
         path = write_replay(a.pid, o, harness.UNITS.get(o['unit']))
         tail = ''
         native = None
-        if o.get('model') and not o.get('no_model'):
-            native = try_native_replay(a.pid, path)
-        if not o.get('model') or o.get('no_model') or native is not True:
+        # with a counter-model the replayer rebuilds that state on the real objects; without one the replayers that enumerate their
+        # inputs natively (kill points of storeMeta, cut positions of a frame, the journal scenario) can still find a failing input
+        native = try_native_replay(a.pid, path)
+        if native is not True:
             tail = ' no-failing-input-found'
         if o.get('bounded') and str(o.get('solver', '')).startswith('cpython') and o['status'] == 'failed':
             tail = ''      # a bounded native enumeration fails on a concrete case it ran on the real code (recorded in the replay file)
